@@ -404,6 +404,11 @@ class Dimension:
 
     def scale(self, zero: "Quantity", name: str, symbol: str) -> "Unit":
         """Define a new scale of this dimension, setting a zero point of another unit"""
+        if not isinstance(zero, Quantity):
+            # before anything is registered: a scale without its zero point is not
+            # a half-defined unit to leave behind
+            raise TypeError("The zero point of a scale must be a Quantity")
+
         unit = self.unit(name, symbol)
         conversions.translate(unit, zero)
         return unit
